@@ -4,7 +4,7 @@
 re-running the affected checks on the unchanged tree at the end."""
 import json, os, subprocess, sys, glob
 V = os.path.dirname(os.path.abspath(__file__))
-WT = '/var/tmp/seedrun_wt'
+WT = os.environ.get('SEEDRUN_WT', '/var/tmp/seedrun_wt')
 only = sys.argv[1:]
 props = set()
 summary = []
